@@ -140,6 +140,12 @@ func clip(s string, n int) string {
 // for accepted programs compile + trace conformance of every scenario.
 // classes restricts which problem classes are reported (nil = all).
 func judgeProgram(prog *ir.Program, wantTrace bool, classes map[string]bool) func(r *h.Result) []h.Violation {
+	return judgeProgramF(prog, wantTrace, classes, nil)
+}
+
+// judgeProgramF is judgeProgram with a filter that narrows the model's reasons to the
+// classes the property under check speaks about (when any of them applies).
+func judgeProgramF(prog *ir.Program, wantTrace bool, classes map[string]bool, focus map[string]bool) func(r *h.Result) []h.Violation {
 	m := ir.NewModel()
 	wirings := map[string]*ir.Wiring{}
 	var reasons []ir.Reason
@@ -147,6 +153,17 @@ func judgeProgram(prog *ir.Program, wantTrace bool, classes map[string]bool) fun
 		w := m.Solve(inj)
 		wirings[inj.Name] = w
 		reasons = append(reasons, w.Reasons...)
+	}
+	if focus != nil {
+		var f []ir.Reason
+		for _, r := range reasons {
+			if focus[r.Class] {
+				f = append(f, r)
+			}
+		}
+		if len(f) > 0 {
+			reasons = f
+		}
 	}
 	return func(r *h.Result) []h.Violation {
 		vs := judgeVerdict(r, reasons)
